@@ -7,12 +7,19 @@
 //
 // output: one group "<result>;<tuples>;<changelog>" per write, then one group
 //
-//	R;<asc>;<desc>;<doc asc>;<folder asc>;<do asc>;<doc desc>;<horizon 1h>;<horizon cut asc>;<horizon cut doc desc>;<paged 2 asc>;<paged 3 desc>;<paged 1 doc asc>
+//	R;<asc>;<desc>;<doc asc>;<folder asc>;<do asc>;<doc desc>;<horizon 1h>;<horizon cut asc>;<horizon cut doc desc>;<paged 2 asc>;<paged 3 desc>;<paged 1 doc asc>;
+//	  <datastore paged 2 with horizon cut>;<query paged 1>;<its horizon trace>;<query paged 2 doc>;<its horizon trace>
 //
-// (the three horizon-cut fields are "-" when the case has no cut).  Nothing printed is a ULID or a timestamp.
+// (the horizon-cut fields are "-" when the case has no cut).  The two "query" reads go through commands.ReadChangesQuery
+// configured with a horizon (storew.QueryPaged): the client follows the continuation tokens; with a cut the horizon
+// falls into the pause, without one it is zero.  Nothing printed is a ULID or a timestamp.
+//
+// case line:   W mem <writers> <writes per writer> <prefill> <page size>      concurrent writers, see storew.ConcurrentWrites
 package main
 
 import (
+	"fmt"
+	"strconv"
 	"strings"
 	"time"
 
@@ -30,6 +37,11 @@ func gen(r *hx.Rand, n int, tier string, emit func(string), st *hx.Stats) {
 	}
 	for i := 0; i < n; i++ {
 		c := r.Fork()
+		if i%50 == 37 {
+			st.Inc("concurrent-writers")
+			emit(fmt.Sprintf("W mem %d %d %d %d", 16+c.Intn(17), 8+c.Intn(7), 1200+100*c.Intn(9), hx.Pick(c, []int{2, 3, 7, 16, 50})))
+			continue
+		}
 		backend := hx.Pick(c, []string{"mem", "mem", "sql", "sql", "cmdmem", "cmdsql"})
 		cmd := strings.HasPrefix(backend, "cmd")
 		odd := c.Chance(1, 4)
@@ -59,6 +71,13 @@ func gen(r *hx.Rand, n int, tier string, emit func(string), st *hx.Stats) {
 
 func exec1(line string, st *hx.Stats) string {
 	f := strings.Fields(line)
+	if f[0] == "W" && len(f) == 6 {
+		a := make([]int, 4)
+		for i := range a {
+			a[i], _ = strconv.Atoi(f[2+i])
+		}
+		return strings.ReplaceAll(storew.NewSession(f[1]).ConcurrentWrites(a[0], a[1], a[2], a[3]), " ", ";")
+	}
 	if f[0] != "C" {
 		return "badcase"
 	}
@@ -87,6 +106,16 @@ func exec1(line string, st *hx.Stats) string {
 		r = append(r, "-", "-")
 	}
 	r = append(r, s.ChangesPaged("", 2, false), s.ChangesPaged("", 3, true), s.ChangesPaged("doc", 1, false))
+	real := func() time.Duration { return 0 }
+	if hasCut {
+		real = func() time.Duration { return time.Since(cut) }
+		r = append(r, s.ChangesPagedH("", 2, real))
+	} else {
+		r = append(r, "-")
+	}
+	q1, t1 := s.QueryPaged("", 1, real)
+	q2, t2 := s.QueryPaged("doc", 2, real)
+	r = append(r, q1, t1, q2, t2)
 	outs = append(outs, strings.Join(r, ";"))
 	return strings.Join(outs, " ")
 }
